@@ -5,7 +5,7 @@ use crate::listx::{self, Elem, ElemKind, Exec, Inner, Warm, WarmSel, INNER_TAG};
 use crate::model::{self, Event, Heap, LOp, MVal, Obs, Op, Origin, SeqModel};
 use crate::rng::{self, Rng};
 use crate::sched::{self, SimCfg, Strategy};
-use crate::tracked::{self, T24, Zst};
+use crate::tracked::{self, Big, T24, Zst};
 use crate::{RunResult, alloc, viol};
 use roto::{List, RotoString, Val};
 use serde::{Deserialize, Serialize};
@@ -85,7 +85,7 @@ impl Gen<'_> {
             ElemKind::U8 => MVal::Int(1 + (self.next_val % 0xC0)),
             ElemKind::U64 => MVal::Int(100 + self.next_val),
             ElemKind::Str => MVal::Str(format!("s{}", self.next_val)),
-            ElemKind::T24 => MVal::Obj(1000 + self.next_val),
+            ElemKind::T24 | ElemKind::Big => MVal::Obj(1000 + self.next_val),
             ElemKind::Zst => MVal::Unit,
             ElemKind::Nested => MVal::Int(0), // replaced by caller
         };
@@ -99,7 +99,7 @@ impl Gen<'_> {
                 ElemKind::U8 => MVal::Int(0xC8),
                 ElemKind::U64 => MVal::Int(99),
                 ElemKind::Str => MVal::Str("absent".into()),
-                ElemKind::T24 => MVal::Obj(999),
+                ElemKind::T24 | ElemKind::Big => MVal::Obj(999),
                 ElemKind::Zst => MVal::Unit,
                 ElemKind::Nested => MVal::Int(0),
             }
@@ -123,6 +123,7 @@ fn elem_for(r: &mut Rng, with_nested: bool) -> ElemKind {
             ElemKind::Zst,
             ElemKind::Nested,
             ElemKind::Nested,
+            ElemKind::Big,
         ])
     } else {
         *r.pick(&[
@@ -136,6 +137,7 @@ fn elem_for(r: &mut Rng, with_nested: bool) -> ElemKind {
             ElemKind::T24,
             ElemKind::T24,
             ElemKind::Zst,
+            ElemKind::Big,
         ])
     }
 }
@@ -450,6 +452,7 @@ pub fn execute(d: &ListDesc, w: &Arc<Warm>, keep_trace: bool) -> RunResult {
         ElemKind::T24 => exec_t::<Val<T24>>(d, w, keep_trace),
         ElemKind::Zst => exec_t::<Val<Zst>>(d, w, keep_trace),
         ElemKind::Nested => exec_t::<List<u64>>(d, w, keep_trace),
+        ElemKind::Big => exec_t::<Val<Big>>(d, w, keep_trace),
     }
 }
 
